@@ -27,9 +27,13 @@ impl Interp {
         c.buildpacks(bps);
         if let Some(t) = self.cfg["target_triple"].as_str() { c.target_triple(t); }
         if let Some(env) = self.cfg["build_env"].as_array() {
-            for kv in env {
-                c.env(kv[0].as_str().unwrap(), kv[1].as_str().unwrap());
-            }
+            // the first pair one by one, the rest in two batches: every way of adding merges
+            let pairs: Vec<(String, String)> = env.iter().map(|kv| (kv[0].as_str().unwrap().to_string(), kv[1].as_str().unwrap().to_string())).collect();
+            let (single, rest) = pairs.split_at(pairs.len().min(1));
+            for (k, v) in single { c.env(k, v); }
+            let (b1, b2) = rest.split_at(rest.len() / 2);
+            c.envs(b1.to_vec());
+            c.envs(b2.to_vec());
         }
         c.expected_pack_result(if o["expected"] == "Success" { PackResult::Success } else { PackResult::Failure });
         if first && o["preproc"] == true {
